@@ -283,6 +283,9 @@ func (e *SpecEnv) ident(name string, old bool) Term {
 				return e.constTerm(o.Val(), o.Type())
 			case *types.Var:
 				if g := e.tx.globalFor(o); g != nil {
+					if t, ok := e.tx.constGlobal(g); ok {
+						return t
+					}
 					l := e.tx.locOfPointer(g, e.state(old))
 					if l != nil {
 						return e.tx.h.read(e.state(old), l)
